@@ -14,7 +14,8 @@ type level struct {
 	via, form, name string
 	off             int
 	pre             []string
-	file            int // file the activation's code is in (0 = the program, 1 = the pre-statement eval source "1", 2.. = eval-level sources)
+	args            string // argument list of the call expression making this activation (token, "" = none)
+	file            int    // file the activation's code is in (0 = the program, 1 = the pre-statement eval source "1", 2.. = eval-level sources)
 }
 
 type progGen struct {
@@ -69,6 +70,91 @@ func (g *progGen) pad() {
 func (g *progGen) fresh(p string) string {
 	g.n++
 	return fmt.Sprintf("%s%d", p, g.n)
+}
+
+var argLits = []string{"1", "\"s\"", "nf", "nobj.p", "[1, 2]", "null", "function(){}", "-1"}
+
+// arg writes one argument expression and returns its token (see Driver.lean: l | c.<form>.<off>(…) | e.<off>.)
+func (g *progGen) arg(depth int, allowEval bool) string {
+	k := g.r.Intn(100)
+	switch {
+	case depth >= 3 || k < 30:
+		g.w(argLits[g.r.Intn(len(argLits))])
+		return "l"
+	case k < 52:
+		o := g.idx()
+		g.w("idf")
+		return fmt.Sprintf("c.id.%d", o) + g.argList(depth+1, allowEval)
+	case k < 64:
+		o := g.idx()
+		g.w("Math.abs")
+		return fmt.Sprintf("c.dot.%d", o) + g.argList(depth+1, allowEval)
+	case k < 71:
+		o := g.idx()
+		g.w("Math[\"abs\"]")
+		return fmt.Sprintf("c.brk.%d", o) + g.argList(depth+1, allowEval)
+	case k < 78:
+		if !allowEval { // an unrecorded callee in an argument is harmless for the trace, but keep the proved stream plain
+			g.w("2")
+			return "l"
+		}
+		g.w("(")
+		o := g.idx()
+		g.w("function(x){ return x; })")
+		return fmt.Sprintf("c.oth.%d", o) + g.argList(depth+1, allowEval)
+	case k < 92:
+		g.w("new ")
+		o := g.idx()
+		g.w("K0")
+		return fmt.Sprintf("c.id.%d", o) + g.argList(depth+1, allowEval)
+	default:
+		if !allowEval {
+			g.w("3")
+			return "l"
+		}
+		o := g.idx()
+		g.w("eval(\"1\")")
+		return fmt.Sprintf("e.%d.", o)
+	}
+}
+
+// argList writes "(" args ")" and returns the token "(…)". Padding only after "(" and "," (see the peek() note).
+func (g *progGen) argList(depth int, allowEval bool) string {
+	g.w("(")
+	n := g.r.Intn(4)
+	if depth == 0 && n == 0 && g.r.Chance(60) {
+		n = 1 + g.r.Intn(2)
+	}
+	tok := "("
+	for i := 0; i < n; i++ {
+		if i > 0 {
+			g.w(",")
+		}
+		g.pad()
+		tok += g.arg(depth, allowEval)
+	}
+	g.w(")")
+	return tok + ")"
+}
+
+// extraArgs writes ", arg" zero to two times after arguments already written.
+func (g *progGen) extraArgs(allowEval bool) string {
+	tok := ""
+	for g.r.Chance(40) && len(tok) < 200 {
+		g.w(",")
+		g.pad()
+		tok += g.arg(1, allowEval)
+		if g.r.Bool() {
+			break
+		}
+	}
+	return tok
+}
+
+// callTail writes the argument list and ";" of the call that makes activation lv.
+func (g *progGen) callTail(lv *level, allowEval bool) {
+	lv.args = g.argList(0, allowEval)
+	g.w(";")
 }
 
 // pre statements: completed statements in the current activation before its call site / raising construct
@@ -150,9 +236,9 @@ func (g *progGen) body(levels []*level, i int, sh shape, raise func(g *progGen))
 		src := g.popFile()
 		g.w(jsStr(src) + ");")
 		if direct {
-			*lv = level{"ed", "id", "", off, lv.pre, k}
+			*lv = level{"ed", "id", "", off, lv.pre, "", k}
 		} else {
-			*lv = level{"ei", "id", "", off, lv.pre, k}
+			*lv = level{"ei", "id", "", off, lv.pre, "", k}
 		}
 		return
 	}
@@ -165,8 +251,9 @@ func (g *progGen) body(levels []*level, i int, sh shape, raise func(g *progGen))
 		n := g.fresh("f")
 		fnDecl(n)
 		preStmts()
-		*lv = level{"d", "id", n, g.idx(), lv.pre, cf}
-		g.w(n + "();")
+		*lv = level{"d", "id", n, g.idx(), lv.pre, "", cf}
+		g.w(n + "")
+		g.callTail(lv, !sh.recordedOnly)
 	case pick < 16: // anonymous function in a variable; sometimes parenthesised callee
 		n := g.fresh("v")
 		g.w("var " + n + " = ")
@@ -175,11 +262,13 @@ func (g *progGen) body(levels []*level, i int, sh shape, raise func(g *progGen))
 		preStmts()
 		if g.r.Chance(30) {
 			g.w("(")
-			*lv = level{"d", "id", "", g.idx(), lv.pre, cf}
-			g.w(n + ")();")
+			*lv = level{"d", "id", "", g.idx(), lv.pre, "", cf}
+			g.w(n + ")")
+			g.callTail(lv, !sh.recordedOnly)
 		} else {
-			*lv = level{"d", "id", "", g.idx(), lv.pre, cf}
-			g.w(n + "();")
+			*lv = level{"d", "id", "", g.idx(), lv.pre, "", cf}
+			g.w(n + "")
+			g.callTail(lv, !sh.recordedOnly)
 		}
 	case pick < 26: // method, dot / bracket callee; anonymous or named function expression
 		o, name := g.fresh("o"), ""
@@ -191,11 +280,13 @@ func (g *progGen) body(levels []*level, i int, sh shape, raise func(g *progGen))
 		g.w("};")
 		preStmts()
 		if g.r.Bool() {
-			*lv = level{"d", "dot", name, g.idx(), lv.pre, cf}
-			g.w(o + ".m();")
+			*lv = level{"d", "dot", name, g.idx(), lv.pre, "", cf}
+			g.w(o + ".m")
+			g.callTail(lv, !sh.recordedOnly)
 		} else {
-			*lv = level{"d", "brk", name, g.idx(), lv.pre, cf}
-			g.w(o + "[\"m\"]();")
+			*lv = level{"d", "brk", name, g.idx(), lv.pre, "", cf}
+			g.w(o + "[\"m\"]")
+			g.callTail(lv, !sh.recordedOnly)
 		}
 	case pick < 36: // constructor
 		n := g.fresh("C")
@@ -203,19 +294,22 @@ func (g *progGen) body(levels []*level, i int, sh shape, raise func(g *progGen))
 		preStmts()
 		if g.r.Chance(70) {
 			g.w("new ")
-			*lv = level{"n", "id", n, g.idx(), lv.pre, cf}
-			g.w(n + "();")
+			*lv = level{"n", "id", n, g.idx(), lv.pre, "", cf}
+			g.w(n + "")
+			g.callTail(lv, !sh.recordedOnly)
 		} else {
 			o := g.fresh("o")
 			g.w("var " + o + " = {k: " + n + "};")
 			g.pad()
 			g.w("new ")
 			if g.r.Bool() {
-				*lv = level{"n", "dot", n, g.idx(), lv.pre, cf}
-				g.w(o + ".k();")
+				*lv = level{"n", "dot", n, g.idx(), lv.pre, "", cf}
+				g.w(o + ".k")
+				g.callTail(lv, !sh.recordedOnly)
 			} else {
-				*lv = level{"n", "brk", n, g.idx(), lv.pre, cf}
-				g.w(o + "[\"k\"]();")
+				*lv = level{"n", "brk", n, g.idx(), lv.pre, "", cf}
+				g.w(o + "[\"k\"]")
+				g.callTail(lv, !sh.recordedOnly)
 			}
 		}
 	case pick < 50: // callback through a built-in
@@ -226,9 +320,14 @@ func (g *progGen) body(levels []*level, i int, sh shape, raise func(g *progGen))
 		}
 		preStmts()
 		form := "dot"
-		*lv = level{"v:" + nat.name, form, name, g.idx(), lv.pre, cf}
+		*lv = level{"v:" + nat.name, form, name, g.idx(), lv.pre, "", cf}
 		g.w(nat.recv + "." + nat.name + "(" + nat.extra)
 		fn(name)
+		lead := "l"
+		if nat.extra != "" {
+			lead = "ll"
+		}
+		lv.args = "(" + lead + g.extraArgs(!sh.recordedOnly) + ")"
 		g.w(");")
 	case pick < 58: // Function.prototype.call / apply
 		n := g.fresh("f")
@@ -238,22 +337,32 @@ func (g *progGen) body(levels []*level, i int, sh shape, raise func(g *progGen))
 		if g.r.Bool() {
 			m = "apply"
 		}
-		*lv = level{"v:" + m, "dot", n, g.idx(), lv.pre, cf}
-		g.w(n + "." + m + "(null);")
+		*lv = level{"v:" + m, "dot", n, g.idx(), lv.pre, "", cf}
+		if m == "call" {
+			g.w(n + ".call(null")
+			lv.args = "(l" + g.extraArgs(!sh.recordedOnly) + ")"
+			g.w(");")
+		} else {
+			g.w(n + ".apply(null, [")
+			lv.args = "(l" + g.arg(1, !sh.recordedOnly) + ")"
+			g.w("]);")
+		}
 	case pick < 64: // bound function
 		n, bn := g.fresh("f"), g.fresh("b")
 		fnDecl(n)
 		g.w(" var " + bn + " = " + n + ".bind(null);")
 		preStmts()
-		*lv = level{"b", "id", n, g.idx(), lv.pre, cf}
-		g.w(bn + "();")
+		*lv = level{"b", "id", n, g.idx(), lv.pre, "", cf}
+		g.w(bn + "")
+		g.callTail(lv, !sh.recordedOnly)
 	case pick < 70: // identifier callee that is a bound native: ap() = f.call() (bound passthrough into the native `call`, which calls f)
 		n, ap := g.fresh("f"), g.fresh("ap")
 		fnDecl(n)
 		g.w(" var " + ap + " = " + n + ".call.bind(" + n + ");")
 		preStmts()
-		*lv = level{"v:call", "id", n, g.idx(), lv.pre, cf}
-		g.w(ap + "();")
+		*lv = level{"v:call", "id", n, g.idx(), lv.pre, "", cf}
+		g.w(ap + "")
+		g.callTail(lv, !sh.recordedOnly)
 	case pick < 80: // immediately invoked function expression: callee is a function literal
 		name := ""
 		if g.r.Bool() {
@@ -263,14 +372,16 @@ func (g *progGen) body(levels []*level, i int, sh shape, raise func(g *progGen))
 		if g.r.Chance(25) {
 			g.w("new ")
 			g.w("(")
-			*lv = level{"n", "oth", name, g.idx(), lv.pre, cf}
+			*lv = level{"n", "oth", name, g.idx(), lv.pre, "", cf}
 			fn(name)
-			g.w(")();")
+			g.w(")")
+			g.callTail(lv, !sh.recordedOnly)
 		} else {
 			g.w("(")
-			*lv = level{"d", "oth", name, g.idx(), lv.pre, cf}
+			*lv = level{"d", "oth", name, g.idx(), lv.pre, "", cf}
 			fn(name)
-			g.w(")();")
+			g.w(")")
+			g.callTail(lv, !sh.recordedOnly)
 		}
 	case pick < 86: // call of a call result: mk()()
 		mk := g.fresh("mk")
@@ -279,16 +390,18 @@ func (g *progGen) body(levels []*level, i int, sh shape, raise func(g *progGen))
 		g.w("; };")
 		preStmts()
 		lv.pre = append(lv.pre, fmt.Sprintf("c:id:%d", g.idx()))
-		*lv = level{"d", "oth", "", g.idx(), lv.pre, cf}
-		g.w(mk + "()();")
+		*lv = level{"d", "oth", "", g.idx(), lv.pre, "", cf}
+		g.w(mk + "()")
+		g.callTail(lv, !sh.recordedOnly)
 	case pick < 90: // sequence-expression callee
 		n := g.fresh("v")
 		g.w("var " + n + " = ")
 		fn("")
 		g.w(";")
 		preStmts()
-		*lv = level{"d", "oth", "", g.idx(), lv.pre, cf}
-		g.w("(0, " + n + ")();")
+		*lv = level{"d", "oth", "", g.idx(), lv.pre, "", cf}
+		g.w("(0, " + n + ")")
+		g.callTail(lv, !sh.recordedOnly)
 	default: // implicit calls: getter, toString, valueOf
 		o := g.fresh("o")
 		switch g.r.Intn(3) {
@@ -297,21 +410,21 @@ func (g *progGen) body(levels []*level, i int, sh shape, raise func(g *progGen))
 			inner()
 			g.w("}};")
 			preStmts()
-			*lv = level{"i", "oth", "", g.idx(), lv.pre, cf}
+			*lv = level{"i", "oth", "", g.idx(), lv.pre, "", cf}
 			g.w(o + ".x;")
 		case 1:
 			g.w("var " + o + " = {toString: ")
 			fn("")
 			g.w("};")
 			preStmts()
-			*lv = level{"i", "oth", "", g.idx(), lv.pre, cf}
+			*lv = level{"i", "oth", "", g.idx(), lv.pre, "", cf}
 			g.w("\"\" + " + o + ";")
 		default:
 			g.w("var " + o + " = {valueOf: ")
 			fn("")
 			g.w("};")
 			preStmts()
-			*lv = level{"i", "oth", "", g.idx(), lv.pre, cf}
+			*lv = level{"i", "oth", "", g.idx(), lv.pre, "", cf}
 			g.w("+" + o + ";")
 		}
 	}
@@ -320,18 +433,45 @@ func (g *progGen) body(levels []*level, i int, sh shape, raise func(g *progGen))
 // raising constructs: each writes the construct and returns (extra innermost native level or nil, raise token)
 type raiser func(g *progGen, sh shape) (*level, string)
 
+// nativeRaise: a call of a built-in that raises; extra arguments are appended only where the built-in ignores them
 func nativeRaise(recv, name, args string, form string) raiser {
+	extraOK := name != "Array" && name != "stringify" && name != "Function"
 	return func(g *progGen, sh shape) (*level, string) {
-		lv := &level{"N", form, name, g.idx(), nil, 0}
-		g.w(recv + "(" + args + ");")
+		extra := func() string {
+			if !extraOK {
+				return ""
+			}
+			return g.extraArgs(!sh.recordedOnly)
+		}
+		lv := &level{"N", form, name, g.idx(), nil, "", 0}
+		g.w(recv + "(")
+		if g.r.Chance(45) {
+			// the essential argument comes out of a call: recv(idf(args))
+			g.pad()
+			o := g.idx()
+			g.w("idf(" + args + ")")
+			lv.args = fmt.Sprintf("(c.id.%d(l)", o) + extra() + ")"
+		} else {
+			g.w(args)
+			lv.args = "(l" + extra() + ")"
+		}
+		g.w(");")
 		return lv, fmt.Sprintf("bare:%d", lv.off)
 	}
 }
 
 var raisers = map[string][]raiser{
 	"unresolvable": {
-		func(g *progGen, sh shape) (*level, string) { o := g.idx(); g.w("zzz;"); return nil, fmt.Sprintf("at:%d", o) },
-		func(g *progGen, sh shape) (*level, string) { o := g.idx(); g.w("zzz();"); return nil, fmt.Sprintf("at:%d", o) },
+		func(g *progGen, sh shape) (*level, string) {
+			o := g.idx()
+			g.w("zzz;")
+			return nil, fmt.Sprintf("at:%d", o)
+		},
+		func(g *progGen, sh shape) (*level, string) {
+			o := g.idx()
+			g.w("zzz();")
+			return nil, fmt.Sprintf("at:%d", o)
+		},
 		func(g *progGen, sh shape) (*level, string) {
 			g.w("1 + ")
 			o := g.idx()
@@ -340,8 +480,16 @@ var raisers = map[string][]raiser{
 		},
 	},
 	"callNonFn": {
-		func(g *progGen, sh shape) (*level, string) { o := g.idx(); g.w("nf();"); return nil, fmt.Sprintf("nf:id:%d", o) },
-		func(g *progGen, sh shape) (*level, string) { o := g.idx(); g.w("nobj.p();"); return nil, fmt.Sprintf("nf:dot:%d", o) },
+		func(g *progGen, sh shape) (*level, string) {
+			o := g.idx()
+			g.w("nf();")
+			return nil, fmt.Sprintf("nf:id:%d", o)
+		},
+		func(g *progGen, sh shape) (*level, string) {
+			o := g.idx()
+			g.w("nobj.p();")
+			return nil, fmt.Sprintf("nf:dot:%d", o)
+		},
 		func(g *progGen, sh shape) (*level, string) {
 			o := g.idx()
 			g.w("nobj[\"p\"]();")
@@ -373,14 +521,38 @@ var raisers = map[string][]raiser{
 		},
 	},
 	"memberUndefined": {
-		func(g *progGen, sh shape) (*level, string) { o := g.idx(); g.w("nu.p;"); return nil, fmt.Sprintf("at:%d", o) },
-		func(g *progGen, sh shape) (*level, string) { o := g.idx(); g.w("nu[\"p\"];"); return nil, fmt.Sprintf("at:%d", o) },
-		func(g *progGen, sh shape) (*level, string) { o := g.idx(); g.w("nu.p = 1;"); return nil, fmt.Sprintf("at:%d", o) },
+		func(g *progGen, sh shape) (*level, string) {
+			o := g.idx()
+			g.w("nu.p;")
+			return nil, fmt.Sprintf("at:%d", o)
+		},
+		func(g *progGen, sh shape) (*level, string) {
+			o := g.idx()
+			g.w("nu[\"p\"];")
+			return nil, fmt.Sprintf("at:%d", o)
+		},
+		func(g *progGen, sh shape) (*level, string) {
+			o := g.idx()
+			g.w("nu.p = 1;")
+			return nil, fmt.Sprintf("at:%d", o)
+		},
 	},
 	"memberNull": {
-		func(g *progGen, sh shape) (*level, string) { o := g.idx(); g.w("nn.p;"); return nil, fmt.Sprintf("at:%d", o) },
-		func(g *progGen, sh shape) (*level, string) { o := g.idx(); g.w("null.p;"); return nil, fmt.Sprintf("at:%d", o) },
-		func(g *progGen, sh shape) (*level, string) { o := g.idx(); g.w("nn[\"p\"];"); return nil, fmt.Sprintf("at:%d", o) },
+		func(g *progGen, sh shape) (*level, string) {
+			o := g.idx()
+			g.w("nn.p;")
+			return nil, fmt.Sprintf("at:%d", o)
+		},
+		func(g *progGen, sh shape) (*level, string) {
+			o := g.idx()
+			g.w("null.p;")
+			return nil, fmt.Sprintf("at:%d", o)
+		},
+		func(g *progGen, sh shape) (*level, string) {
+			o := g.idx()
+			g.w("nn[\"p\"];")
+			return nil, fmt.Sprintf("at:%d", o)
+		},
 	},
 	"arrayLenCtor": {
 		func(g *progGen, sh shape) (*level, string) {
@@ -392,14 +564,22 @@ var raisers = map[string][]raiser{
 		nativeRaise("Array", "Array", "-1", "id"),
 	},
 	"arrayLenSet": {
-		func(g *progGen, sh shape) (*level, string) { o := g.idx(); g.w("arr.length = -1;"); return nil, fmt.Sprintf("bare:%d", o) },
+		func(g *progGen, sh shape) (*level, string) {
+			o := g.idx()
+			g.w("arr.length = -1;")
+			return nil, fmt.Sprintf("bare:%d", o)
+		},
 	},
 	"radix":          {nativeRaise("nmb.toString", "toString", "99", "dot"), nativeRaise("nmb[\"toString\"]", "toString", "1", "brk")},
 	"fixedPrecision": {nativeRaise("nmb.toFixed", "toFixed", "101", "dot")},
 	"expPrecision":   {nativeRaise("nmb.toExponential", "toExponential", "101", "dot")},
 	"precPrecision":  {nativeRaise("nmb.toPrecision", "toPrecision", "101", "dot")},
 	"evalSyntax": {
-		func(g *progGen, sh shape) (*level, string) { o := g.idx(); g.w("eval(\"1 +\");"); return nil, fmt.Sprintf("sb:id:%d", o) },
+		func(g *progGen, sh shape) (*level, string) {
+			o := g.idx()
+			g.w("eval(\"1 +\");")
+			return nil, fmt.Sprintf("sb:id:%d", o)
+		},
 		nativeRaise("ev", "eval", "\"var\"", "id"),
 	},
 	"functionSyntax": {
@@ -412,10 +592,18 @@ var raisers = map[string][]raiser{
 		nativeRaise("Function", "Function", "\"1 +\"", "id"),
 	},
 	"instanceofNonObj": {
-		func(g *progGen, sh shape) (*level, string) { o := g.idx(); g.w("1 instanceof 2;"); return nil, fmt.Sprintf("bare:%d", o) },
+		func(g *progGen, sh shape) (*level, string) {
+			o := g.idx()
+			g.w("1 instanceof 2;")
+			return nil, fmt.Sprintf("bare:%d", o)
+		},
 	},
 	"inNonObj": {
-		func(g *progGen, sh shape) (*level, string) { o := g.idx(); g.w("\"a\" in 1;"); return nil, fmt.Sprintf("bare:%d", o) },
+		func(g *progGen, sh shape) (*level, string) {
+			o := g.idx()
+			g.w("\"a\" in 1;")
+			return nil, fmt.Sprintf("bare:%d", o)
+		},
 	},
 	"cyclicJSON":   {nativeRaise("JSON.stringify", "stringify", "cyc", "dot")},
 	"uriMalformed": {nativeRaise("decodeURIComponent", "decodeURIComponent", "\"%\"", "id")},
@@ -430,7 +618,7 @@ func levelTok(lv *level) string {
 	if len(lv.pre) > 0 {
 		pre = strings.Join(lv.pre, "+")
 	}
-	return fmt.Sprintf("%s,%s,%s,%d,%s,%d", lv.via, lv.form, dash(lv.name), lv.off, pre, lv.file)
+	return fmt.Sprintf("%s,%s,%s,%d,%s,%d,%s", lv.via, lv.form, dash(lv.name), lv.off, pre, lv.file, dash(lv.args))
 }
 
 var fileNames = []string{"", "", "a.js", "lib/x.js", "t_1.js"}
@@ -444,7 +632,7 @@ func genTrace(r *h.Rng, depth int, limit int, sh shape, exotic bool, kind string
 	for i := range levels {
 		levels[i] = &level{}
 	}
-	g.w("var nf = 1, nu, nn = null, nobj = {p: 1}, arr = [], nmb = 1, ev = eval, cyc = {}; cyc.c = cyc; function nop(){};")
+	g.w("var nf = 1, nu, nn = null, nobj = {p: 1}, arr = [], nmb = 1, ev = eval, cyc = {}; cyc.c = cyc; function nop(){}; function idf(x){ return x; }; function K0(){};")
 	g.pad()
 	var extra *level
 	var raiseTok string
@@ -644,6 +832,9 @@ func genAll(c *h.Ctx) {
 		keys := []string{key, "trace:kind:" + kind, fmt.Sprintf("trace:depth:%d", depth), fmt.Sprintf("trace:limit:%d", limit)}
 		if strings.Contains(line, "ed,id,-,") {
 			keys = append(keys, "trace:through-direct-eval")
+		}
+		if strings.Contains(line, "(c.") || strings.Contains(line, "lc.") || strings.Contains(line, ")c.") {
+			keys = append(keys, "trace:call-inside-argument-list")
 		}
 		if strings.Contains(line, "ei,id,-,") {
 			keys = append(keys, "trace:through-indirect-eval")
